@@ -221,6 +221,9 @@ func (w *world) run() {
 	out := w.out
 	if w.o.Mode == "big" || (w.o.Tier == "thorough" && c.Bool(1, 60, "bign?")) {
 		w.n = bigN[c.Choose(len(bigN), "bign")]
+		if c.Bool(1, 3, "bign.random") {
+			w.n = 13 + c.Choose(108, "bign.value") // any size between the small worlds and the listed ones
+		}
 	} else {
 		w.n = c.Weighted(smallN, "n")
 	}
